@@ -337,7 +337,7 @@ def addr_st(draw, kmax: int = 4, groups: bool = False, members: bool = True, kin
         if draw(st.booleans()):
             base &= ~wild & ALL1
         return {"k": "wild", "b": base, "w": wild}
-    name = draw(st.sampled_from(["G1", "G2", "NET-A", "g.3"]))
+    name = draw(st.sampled_from(["G1", "G2", "NET-A", "g.3", "G1", "G2", "anyconnect-pool", "any-net", "hosts"]))
     mem = []
     if members:
         for _ in range(draw(st.integers(1, 4))):
@@ -437,7 +437,9 @@ def ace_st(draw, platform: str = "ios", version: str = "0", kmax: int = 4, group
         rec["opq"] = draw(st.sampled_from([["fragments"], ["dscp", "ef"], ["precedence", "critical"], ["dscp", "af31"],
                                            ["dscp", "cs5"], ["time-range", "after6pm"], ["match-any", "tos", "max-throughput"],
                                            # operands are free text after their keyword: any characters
-                                           ["time-range", "office_hours"], ["time-range", "whEU"], ["time-range", "t.1"]]))
+                                           ["time-range", "office_hours"], ["time-range", "whEU"], ["time-range", "t.1"],
+                                           # words that begin like an address keyword
+                                           ["time-range", "anytime"], ["time-range", "hosting"]]))
     if rec["logs"] and (rec["flags"] or rec["opq"]) and draw(st.booleans()):
         rec["lf"] = True
     if noise and draw(st.integers(0, 9)) < 3:
